@@ -71,8 +71,10 @@ def run(rep, pdb, tier):
         t = ctx.term(rets[0]["e"]) if rets else None
         if t is not None and t[0] == "call" and str(t[1]).endswith("::Err"):
             errs.append((g, ctx.term(g.node["cond"])))
-    empty = [g for g, c in errs if EQ(LEN(CO1), num(0)) in [a for alt in g.alts for a in alt]]
-    allzero = [g for g, c in errs if c == ("call", "%s::is_zero" % PT, P(1))]
+    # each alternative of an Err guard's condition is one refusal reason (the two tests may be separate ifs or one `||`)
+    iz = ("bool", ("call", "%s::is_zero" % PT, P(1)), True)
+    empty = [g for g, c in errs if any(alt == frozenset([EQ(LEN(CO1), num(0))]) for alt in g.alts)]
+    allzero = [g for g, c in errs if any(alt == frozenset([iz]) for alt in g.alts)]
     rep.add("zero-divisor/empty", "division by the empty polynomial returns Err before anything else", len(empty) == 1, empty[0].node if empty else fn["body"], "")
     rep.add("zero-divisor/all-zero", "division by an all-zero polynomial returns Err before anything else", len(allzero) == 1, allzero[0].node if allzero else fn["body"], "")
     # ---- no spin
